@@ -213,3 +213,29 @@ Qed.
 Theorem set_flags_u64_cmp c cfb ofb r s : 0 <= rflags s < 2 ^ 63 ->
   set_flags_u64 c (cmp_fs cfb ofb) 2049 r s = (Ok tt, with_flags s ARITH (b2f cfb CF + b2f ofb OF + szp 64 r)).
 Proof. intros H. unfold cmp_fs. rewrite set_flags_u64_eval_nw. rewrite emu_flags_spec_nw by exact H. reflexivity. Qed.
+
+Lemma set_flags_u32_eval_nw c (cfb ofb : bool) r s :
+  let fs := Z.lor 9223372036854776004 (Z.lor (b2f ofb FLAG_OF) (b2f cfb FLAG_CF)) in
+  set_flags_u32 c fs 2049 r s
+  = (Ok tt, set_rflags s (emu_flags (rflags s) fs 2049 (parity8 r) (Z.testbit r 31) (r =? 0))).
+Proof. set_flags_eval set_flags_u32 U32 31. Qed.
+Lemma set_flags_u16_eval_nw c (cfb ofb : bool) r s :
+  let fs := Z.lor 9223372036854776004 (Z.lor (b2f ofb FLAG_OF) (b2f cfb FLAG_CF)) in
+  set_flags_u16 c fs 2049 r s
+  = (Ok tt, set_rflags s (emu_flags (rflags s) fs 2049 (parity8 r) (Z.testbit r 15) (r =? 0))).
+Proof. set_flags_eval set_flags_u16 U16 15. Qed.
+Lemma set_flags_u8_eval_nw c (cfb ofb : bool) r s :
+  let fs := Z.lor 9223372036854776004 (Z.lor (b2f ofb FLAG_OF) (b2f cfb FLAG_CF)) in
+  set_flags_u8 c fs 2049 r s
+  = (Ok tt, set_rflags s (emu_flags (rflags s) fs 2049 (parity8 r) (Z.testbit r 7) (r =? 0))).
+Proof. set_flags_eval set_flags_u8 U8 7. Qed.
+
+Theorem set_flags_u32_cmp c cfb ofb r s : 0 <= rflags s < 2 ^ 63 ->
+  set_flags_u32 c (cmp_fs cfb ofb) 2049 r s = (Ok tt, with_flags s ARITH (b2f cfb CF + b2f ofb OF + szp 32 r)).
+Proof. intros H. unfold cmp_fs. rewrite set_flags_u32_eval_nw. rewrite emu_flags_spec_nw by exact H. reflexivity. Qed.
+Theorem set_flags_u16_cmp c cfb ofb r s : 0 <= rflags s < 2 ^ 63 ->
+  set_flags_u16 c (cmp_fs cfb ofb) 2049 r s = (Ok tt, with_flags s ARITH (b2f cfb CF + b2f ofb OF + szp 16 r)).
+Proof. intros H. unfold cmp_fs. rewrite set_flags_u16_eval_nw. rewrite emu_flags_spec_nw by exact H. reflexivity. Qed.
+Theorem set_flags_u8_cmp c cfb ofb r s : 0 <= rflags s < 2 ^ 63 ->
+  set_flags_u8 c (cmp_fs cfb ofb) 2049 r s = (Ok tt, with_flags s ARITH (b2f cfb CF + b2f ofb OF + szp 8 r)).
+Proof. intros H. unfold cmp_fs. rewrite set_flags_u8_eval_nw. rewrite emu_flags_spec_nw by exact H. reflexivity. Qed.
